@@ -145,6 +145,12 @@ func runC17Wildcard(c *Ctx) {
 }
 
 func runC17(c *Ctx) {
+	// clause shared with C20: a resolver that does not know a type falls back to dynamic messages however it says not-found
+	defer c.ImportRules("C20", "C20.1")
+	// clause shared with C15: the route's template is not rewritten by requests
+	defer c.ImportRules("C15", "C15.1")
+	// clause shared with C20: the configured schema, not a compiled-in namesake, supplies the message types
+	defer c.ImportRules("C20", "C20.4")
 	p := c.P
 	defer runC17RulesAccumulate(c)
 	defer runC17NoSharedDefaults(c)
@@ -777,6 +783,25 @@ func runC17(c *Ctx) {
 		for _, fn := range p.Funcs {
 			if fn.Parent() == nil || fn.Signature.Params().Len() != 1 || !types.Identical(fn.Signature.Params().At(0).Type(), sof.Underlying().(*types.Signature).Params().At(0).Type()) {
 				continue
+			}
+			// other in-place mutations of a map held by the options: delete / clear / maps.* helpers
+			for _, call := range Calls(fn) {
+				if !IsCallTo(call, "builtin delete", "builtin clear", "maps.Copy", "maps.DeleteFunc", "maps.Insert") || len(call.Common().Args) == 0 {
+					continue
+				}
+				fld := LoadedField(call.Common().Args[0])
+				if fld == nil || fieldOwner(fld, p) != "serviceOptions" {
+					continue
+				}
+				nSet++
+				fresh := false
+				for _, st := range StoresToField(fn, fld) {
+					if _, isMake := strip(st.Val).(*ssa.MakeMap); isMake && st.Block().Dominates(call.Block()) {
+						fresh = true
+					}
+				}
+				c.Check(fresh, "C17.4", FuncName(fn), "setter-replaces-map:"+N(fld)+":"+CalleeName(call), call.Pos(),
+					"the option setter stores a fresh map before changing it", "the option setter changes the existing (default, shared) map in place ("+CalleeName(call)+"): one service's option alters the defaults of all services, whatever the order of registration")
 			}
 			ForEachInstr(fn, func(in ssa.Instruction) {
 				mu, ok := in.(*ssa.MapUpdate)
